@@ -43,6 +43,23 @@ add("C12", "model_checking",
     "Every type-correct method chain of length <=3 over Entry/OccupiedEntry/VacantEntry/RawEntryMut/RawOccupiedEntryMut/RawVacantEntryMut handles, on every key location class, at every explored state including the insertions that trigger growth; every accessor is compared with the reference element and writes through returned references are read back.",
     TB + " Chains that call replace_entry/replace_key on a handle descending from Entry::insert are not generated (hashbrown documents that panic).", E12 + " over a typed grammar of handle method chains", "DESIGN.md section 5 C12")
 
+E3 = "bounded exhaustive exploration of the implementation: every ordered pair of a family of reachable states (growth path + states after one shaping deviation), crossed with hasher seeds and key-overlap patterns"
+add("C11", "model_checking",
+    "Pair worlds: clone() and clone_from() for every ordered (source, destination) pair of the state family, hasher seed pairs (1,1),(1,2),(2,1); contents, == both ways, source's physical dump unchanged, hasher adopted, no old table kept, no shared element objects; then each of 12 divergent calls on either map (depth 2 in the thorough tier) with the other map's dump required unchanged.",
+    TB, E3, "DESIGN.md section 5 C11, engine E3")
+add("C13", "model_checking",
+    "Set histories explored like the map's (E1/E2 against a BTreeSet-like reference, object identity of the stored element tracked for replace/get_or_insert*), plus every ordered pair of set states for union/intersection/difference/symmetric_difference, | & ^ -, is_subset/is_superset/is_disjoint and ==, with duplicate-freedom of every lazy iterator.",
+    TB, E12 + "; " + E3, "DESIGN.md section 5 C13")
+add("C14", "model_checking",
+    "For every target content set 0..n the cross product of history shapes (insertion order, initial capacity, tombstones, reserve/shrink_to_fit spliced in, hasher kind and seed) is built, one member kept per physical layout; all ordered pairs compared through ==, len, get/contains of every key, sorted iter/keys/values/Debug; explicit triples for transitivity; single-element mutations must compare unequal both ways.",
+    TB, "exhaustive enumeration of a finite family of histories per content set; all pairs / triples compared on the implementation", "DESIGN.md section 5 C14")
+add("C16", "model_checking",
+    "At every family state (maps and sets; u32, heap-owning and zero-sized elements) serde_test's token round trip (exact length, iteration order, each element once, deserialize and deserialize_in_place compared with ==) and serde's value deserializers with size hints {exact, none, 0, 10^9}; HashSet::deserialize_in_place for every ordered (source, destination) pair of set states.",
+    TB + " serde_test and serde::de::value are trusted as token recorder / source.", E3 + " (serde round trip per state, in-place per pair)", "DESIGN.md section 5 C16")
+add("C17", "model_checking",
+    "The exploration spaces of C01 (E1/E2, entry chains) and C10 (capacity arguments incl. usize/isize windows) are executed by two binaries that differ exactly in debug-assertions and overflow-checks; per-execution outcome digests (returned values, panics, len, capacity, sorted contents) are compared chunk by chunk and the first differing history is reported; an AddressSanitizer build runs the E2 and chain spaces.",
+    TB, "bounded exhaustive exploration of the implementation under two build profiles with transcript comparison", "DESIGN.md section 5 C17, engine E6")
+
 import os
 claimed = sorted(CHECKS)
 ALL = [f"C{i:02d}" for i in range(1, 18)]
